@@ -166,6 +166,41 @@ def g_birthplace(R, tier):
                 R.check(f"{nm}/registered-as-child-of-the-enclosing-namespace/{sig}", v["stack"][-1].fields["inner_nsp"] == [obj], repr(v["stack"][-1].fields["inner_nsp"]))
 
 
+def g_namespace_isolation(R, tier):
+    """every namespace object owns its loop stack, comprehension stack and child list: a
+    `def`/class inside a loop starts with NO enclosing loop (break/continue/return placement,
+    C05/C08), and state never leaks between namespaces or conversions (C10)"""
+    from olvc import frames
+    import symtable as ST
+    ns = NS()
+    pre = frames.preexisting()
+    for kind in ("global", "function", "class"):
+        def run(c):
+            m = Machine(stubs=stubs())
+            if kind == "global":
+                objs = [m.call_value(ns.NamespaceGlobal, ST.symtable("", "<h>", "exec"), []) for _ in range(2)]
+            else:
+                cls = ns.NamespaceFunction if kind == "function" else ns.NamespaceClass
+                objs = []
+                for i in range(2):
+                    symt = mk_symt(f"T{i}", symbols={}, frees=[], nonlocals=[], kind=kind)
+                    objs.append(m.call_value(cls, symt, [mk_scope("G", "global")]))
+            return dict(objs=objs, fresh=set(c.fresh_objs))
+        for p in explore(run):
+            nm = f"namespaces.Namespace.__init__[{kind}]"
+            if p.kind != "ok":
+                R.fail(nm + "/no-unexpected-raise", repr(p.value))
+                continue
+            a, b = p.value["objs"]
+            for attr in ("loop_stack", "comp_stack", "inner_nsp"):
+                la, lb = getattr(a, attr, None), getattr(b, attr, None)
+                ok = isinstance(la, list) and isinstance(lb, list) and la == [] and lb == [] and la is not lb and id(la) not in pre and id(lb) not in pre \
+                    and id(la) in p.value["fresh"]
+                R.check(f"{nm}/owns-a-fresh-empty-{attr}", ok,
+                        f"{attr}: {'shared between namespace objects' if la is lb else ''} {'class/module-level object ' + pre.get(id(la), '') if id(la) in pre else ''}",
+                        replay=dict(kind="src", src="log = []\nfor i in range(3):\n    def f():\n        for j in range(2):\n            if j:\n                return j\n        return 0\n    log.append(f())\nelse:\n    log.append('else')\n", expect="same-globals"))
+
+
 def g_method_super(R, tier):
     """a method that uses zero-argument super() has the implicit free name __class__; its
     other free names must still be resolved (in either order of the free-name list)"""
@@ -846,7 +881,7 @@ def g_for_target(R, tier):
                    "def f():\n    for i in range(3):\n        pass\n    def g():\n        return i\n    return i, g()\nr = f()\nfor k in range(2):\n    pass\nlast = k\n")
 
 
-GROUPS = {"for_target": g_for_target, "birthplace": g_birthplace, "method_super": g_method_super, "access_function": g_access_function, "access_class": g_access_class, "access_global": g_access_global,
+GROUPS = {"for_target": g_for_target, "namespace_isolation": g_namespace_isolation, "birthplace": g_birthplace, "method_super": g_method_super, "access_function": g_access_function, "access_class": g_access_class, "access_global": g_access_global,
           "transform_dispatch": g_transform_dispatch, "transform_generic": g_transform_generic, "transform_names": g_transform_names,
           "transform_comp": g_transform_comp, "walk": g_walk, "seeding": g_seeding, "canary": c13.g_canary}
 
